@@ -12,6 +12,7 @@ export GOFLAGS=-mod=mod GOPROXY=off GOSUMDB=off GOTOOLCHAIN=local
 unset GOWORK
 patch=$src/SEED/patch.diff
 demo=$src/SEED/demo_test.go
+[ -f "$demo" ] || demo=$src/SEED/demo_test.go.txt
 [ -f "$patch" ] && [ -f "$demo" ] || { echo "missing SEED/patch.diff or demo_test.go in $src"; exit 2; }
 wt=$(mktemp -d /tmp/keepseed.XXXXXX)
 rmdir "$wt"
